@@ -188,6 +188,9 @@ def _registry():
     R["img_as-uint8"] = lambda a, b: a.img_as(np.uint8)
     R["astype-float32"] = lambda a, b: a.astype(np.float32)
     R["random_patches"] = lambda a, b: darsia.random_patches(a.img > 0.2, 2, 3)
+    # many patches on a small mask: the first draw of patch positions contains duplicates
+    R["random_patches-many"] = lambda a, b: darsia.random_patches(a.img > 0.2, 2, 20)
+    R["random_patches-tiny-mask"] = lambda a, b: darsia.random_patches(a.img[:3, :4] > 0.2, 1, 10)
     R["bounding_box"] = lambda a, b: darsia.bounding_box(np.array([[1, 2], [5, 7]]), padding=1, max_size=(8, 12))
     R["reduce-average"] = lambda a, b: darsia.reduce_axis(a, "x", mode="average")
     R["subregion-coordinates"] = lambda a, b: a.subregion(darsia.make_coordinate([[0.1, 0.2], [0.8, 1.1]]))
